@@ -101,7 +101,8 @@ def cases(ctx):
         for pre in pres:
             for post in posts:
                 if ctx.thorough():
-                    combos = itertools.product(itertools.product(atoms, repeat=2), repeat=3)
+                    # all pairs over the four core atoms in every slot, plus all single atoms of the full set
+                    combos = list(itertools.product(itertools.product(core, repeat=2), repeat=3)) + [((x,), (y,), (z,)) for x in atoms for y in atoms for z in atoms]
                 else:
                     combos = [tuple(tuple(rng.choice(atoms) for _ in range(rng.randint(1, 2))) for _ in range(3)) for _ in range(60)]
                     combos += [((x,), (y,), (z,)) for x in core for y in core for z in core]
@@ -150,7 +151,8 @@ def cases(ctx):
                 steps.append("X"); level -= 1
             else:
                 steps.append(f"B{rng.randint(0, 5)},len")
-        out.append(Case("symtab " + ";".join(steps), ("symtab",)))
+        if steps:
+            out.append(Case("symtab " + ";".join(steps), ("symtab",)))
     # the run-time half of the last sentence (theorems C04Closure.closure_snapshot, captured_assignment_is_private): the layer
     # with closures of lean/P2sh/Core/Fn — which values `Closure` copies and in which order, what `GetFree` / `SetFree` read and
     # write, capture chains — functional compiler, machine and reference evaluation against the real compiler and VM (op `core`)
